@@ -11,7 +11,7 @@ import (
 // ModVar is a global of a generated graph-building module.
 type ModVar struct {
 	Name string `json:"name"`
-	Kind string `json:"kind"` // list dict set tuple struct rec func other
+	Kind string `json:"kind"` // list dict set tuple struct rec func factory other
 }
 
 // Module is a generated module that builds an object graph into its globals (C04, C05).
@@ -77,7 +77,7 @@ func GenModule(t *rapid.T, noFail bool) Module {
 		if i == failAt {
 			line("boom_%d = 1 // 0", i)
 		}
-		switch vk.Uniform(t, 17) {
+		switch vk.Uniform(t, 18) {
 		case 0, 1:
 			v := fresh("v")
 			if vk.Chance(t, 0.12) {
@@ -226,6 +226,26 @@ func GenModule(t *rapid.T, noFail bool) Module {
 			v := fresh("v")
 			line("%s = {(1, 2): [%s], struct(q = (1,)): {\"in\": %s}}", v, val(), val())
 			vars = append(vars, ModVar{v, "dict"})
+		case 17:
+			// closure factory, two levels deep: every later call of the factory makes a new (unfrozen) function
+			// that shares the frozen cell of the enclosing function's variable
+			o, f := fresh("outer"), fresh("factory")
+			line("def %s():", o)
+			line("    x = (%s, [%s], %s)", val(), val(), val())
+			line("    def mk(extra = None):")
+			switch vk.Uniform(t, 3) {
+			case 0:
+				line("        return lambda: len(x)")
+			case 1:
+				line("        def inner(y = [extra]):")
+				line("            return (x, y)")
+				line("        return inner")
+			case 2:
+				line("        return [lambda: x, lambda: (x, extra)]")
+			}
+			line("    return mk")
+			line("%s = %s()", f, o)
+			vars = append(vars, ModVar{f, "factory"})
 		}
 	}
 	c.Src = sb.String()
